@@ -56,15 +56,16 @@ CLAIMED["C16"] = ("contract-based deductive verification (WP -> SMT) of Simplify
   "DESIGN.md section 4, C16")
 
 T_WP = "contract-based deductive verification: symbolic execution / weakest preconditions over the typed AST of the real functions, obligations discharged by z3/cvc5"
-CLAIMED["C01"] = (T_WP + " (necessary-condition lemmas only)",
-  "The region statement itself is NOT decided (it needs the sweep's global invariants). Proved for all inputs are the necessary conditions the anchored mechanisms must satisfy, in the property's own vocabulary: "
+CLAIMED["C01"] = (T_WP + " (necessary-condition lemmas and list-surgery contracts); sampled bounded stand-in for the region statement",
+  "The region statement itself is NOT decided by proof (it needs the sweep's global invariants); a sampled stand-in (labelled bounded, not counted as proved) checks it directly against an exact winding-number oracle on 48 000 (quick) / 2.4 million (thorough) small random operations plus the recorded witnesses, and found the engine defects F33-F36 (areaOP, doSplitOp, fixSelfIntersects, joins), all repaired: it now passes with no failure on three seeds and a finer grid. Proved for all inputs are the necessary conditions the anchored mechanisms must satisfy, in the property's own vocabulary: "
   "(1) isContributingClosed returns true exactly when membership in the requested boolean combination (fill rule applied to winding numbers) differs across the edge, for all 4 clip types x 4 fill rules x both path types x all winding values; "
   "(2) setWindCountForClosedPathEdge hands the winding number over correctly from the nearest edge of the same type (all five branches) and accumulates the other type's winding edge by edge; "
   "(3) intersectEdges transfers the stored winding counts so that they describe the regions after the two edges swap places (same type / other type, EvenOdd and non-EvenOdd); "
-  "(4) the integer primitives on the 2^29 domain: CrossProduct / dotProduct64 sign-exact without overflow, isCollinear, getSegmentIntersectPt (parallel iff determinant zero, result inside the first segment's box), getDx.",
+  "(4) the integer primitives on the 2^29 domain: CrossProduct / dotProduct64 sign-exact without overflow, isCollinear, getSegmentIntersectPt (parallel iff determinant zero, result inside the first segment's box), getDx and topX with rounded float arithmetic; "
+  "(5) a crossing of two cold same-type edges starts an output ring exactly when the contribution rule holds for the updated edges; addNewIntersectNode keeps crossings that lie inside the scanbeam; insertLeftEdge never inserts between joined edges; AEL/SEL insertion, removal and swapping, ring joining and local maxima keep the links they must keep.",
   "A green run does not establish the region property; evidence lists the sweep functions that are in the mechanism but not under contract. float-as-real; heap model per struct field; callees without contract are havocked.",
   "DESIGN.md section 4, C01")
-CLAIMED["C19"] = (T_WP + " (lemma level) plus wrapper contracts over abstract function symbols",
+CLAIMED["C19"] = (T_WP + " (lemma level) plus wrapper contracts over abstract function symbols; the sampled region stand-in of C01 runs all four clip types on every input",
   "Proved: the boolean table used by the contribution rule satisfies the property's set identities pointwise (Union = disjoint union of Difference(S,C), Intersection, Difference(C,S); Xor = Union minus Intersection; "
   "Difference = subject minus Intersection; [U]+[I] = [s]+[c]) - so code that meets the contribution rule (C01, same obligation) cannot make the four results disagree where the sweep is otherwise right; "
   "UnionPaths64(s,f) == BooleanOpPaths64(Union,s,nil,f) and the four WithClip wrappers pass Union/Intersection/Difference/Xor respectively. The area inequalities are not decided.",
@@ -102,7 +103,7 @@ CLAIMED["C03"] = (T_WP + ": safety obligations (index, slice, nil, division, mak
   "Callees without contract are havocked. Termination is proved only where a decreases clause is listed.",
   "DESIGN.md section 4, C03")
 
-CLAIMED["C02"] = (T_WP + " (emission step only)",
+CLAIMED["C02"] = (T_WP + " (emission step and ring surgery); sampled bounded stand-in for the winding-0/1 clause",
   "The canonical-form statement itself (winding 0/1, orientation, >= 3 vertices) is NOT decided. Proved for all inputs are the named emission mechanisms: buildPath rejects exactly the degenerate rings (nil, single node, two nodes when closed), "
   "never emits two consecutive equal vertices, and rejects a closed 3-vertex result exactly when it is a very small triangle; ptsReallyClose / isVerySmallTriangle / isValidClosedPath have exact specifications; "
   "buildPaths routes every output record to exactly one of the two solutions according to isOpen and skips records without points.",
